@@ -31,6 +31,8 @@ EXC_TABLE = {
     "JSONDecodeError": ["ValueError"],
     "TypeError": ["Exception"],
     "AttributeError": ["Exception"],
+    "NameError": ["Exception"],
+    "UnboundLocalError": ["NameError"],
     "RuntimeError": ["Exception"],
     "RecursionError": ["RuntimeError"],
     "StopIteration": ["Exception"],
